@@ -215,6 +215,52 @@ def check_nufft(ift, inst):
                     break
         except Exception as e:
             out.append("%s raised %s: %s" % (name, type(e).__name__, str(e)[:140]))
+    # the same Fourier sum with the positions as INPUT (VariablePositionNufft, type 2): value E^H f, Jacobian with respect to the grid values E^H and
+    # with respect to the coordinates -2 pi i x dst exp(-2 pi i x dst u) f(x) summed over the pixels
+    try:
+        npts = pos.shape[0]
+        vp = ift.VariablePositionNufft(dom, npts, 1e-12)
+        rs = np.random.RandomState(5)
+        f = rs.standard_normal(shape) + 1j * rs.standard_normal(shape)
+        x = ift.MultiField.from_dict({"grid": ift.makeField(dom, f), "coord": ift.makeField(vp.domain["coord"], pos)}, domain=vp.domain)
+        EH = np.conj(E).T                                         # (points, pixels)
+        exp = EH @ f.ravel()
+        got = vp(x).asnumpy()
+        lin = vp(ift.Linearization.make_var(x))
+        if not np.allclose(got, exp, atol=1e-9) or not np.allclose(lin.val.asnumpy(), exp, atol=1e-9):
+            out.append("VariablePositionNufft on %s distances %s at %s: %s, the Fourier sum gives %s" % (shape, dist, pos.tolist(), np.round(got, 8).tolist(), np.round(exp, 8).tolist()))
+        grids = np.meshgrid(*[np.arange(n_) - n_ // 2 for n_ in shape], indexing="ij")
+        zero_c = ift.makeField(vp.domain["coord"], np.zeros_like(pos))
+        zero_g = ift.makeField(dom, np.zeros(shape, dtype=complex))
+        for k in range(min(inst["nout"], 3)):
+            e = np.zeros(inst["nout"], dtype=complex)
+            e[k] = 1.
+            jg = lin.jac(ift.MultiField.from_dict({"grid": ift.makeField(dom, e.reshape(shape)), "coord": zero_c}, domain=vp.domain)).asnumpy()
+            if not np.allclose(jg, EH[:, k], atol=1e-9):
+                out.append("VariablePositionNufft: Jacobian with respect to pixel %d is %s, expected %s" % (k, np.round(jg, 8).tolist(), np.round(EH[:, k], 8).tolist()))
+                break
+        for j in range(npts):
+            for c_ in range(len(shape)):
+                dp = np.zeros_like(pos)
+                dp[j, c_] = 1.
+                jc = lin.jac(ift.MultiField.from_dict({"grid": zero_g, "coord": ift.makeField(vp.domain["coord"], dp)}, domain=vp.domain)).asnumpy()
+                expc = np.zeros(npts, dtype=complex)
+                expc[j] = np.sum(EH[j] * f.ravel() * (-2j * np.pi * dist[c_] * grids[c_].ravel()))
+                if not np.allclose(jc, expc, atol=1e-8):
+                    out.append("VariablePositionNufft: Jacobian with respect to coordinate %d of point %d is %s, the derivative of the Fourier sum is %s" % (c_, j, np.round(jc, 7).tolist(), np.round(expc, 7).tolist()))
+                    break
+        # adjoint of the Jacobian with respect to the real inner product
+        t = rs.standard_normal(npts) + 1j * rs.standard_normal(npts)
+        d_g = rs.standard_normal(shape) + 1j * rs.standard_normal(shape)
+        d_c = rs.standard_normal(pos.shape)
+        d = ift.MultiField.from_dict({"grid": ift.makeField(dom, d_g), "coord": ift.makeField(vp.domain["coord"], d_c)}, domain=vp.domain)
+        lhs = np.vdot(t, lin.jac(d).asnumpy()).real
+        back = lin.jac.adjoint_times(ift.makeField(vp.target, t))
+        rhs = np.vdot(back["grid"].asnumpy(), d_g).real + np.vdot(back["coord"].asnumpy(), d_c).real
+        if not np.isclose(lhs, rhs, rtol=1e-8, atol=1e-9):
+            out.append("VariablePositionNufft: Re<t, J d> = %.9g but Re<J^H t, d> = %.9g" % (lhs, rhs))
+    except Exception as e:
+        out.append("VariablePositionNufft raised %s: %s" % (type(e).__name__, str(e)[:140]))
     return out
 
 
